@@ -31,19 +31,20 @@ struct Gen {
 
 	int anyState() { return rng.range(0, sh.n - 1); }
 	int destState() { return rng.chance(0.04) ? 0 : rng.range(1, sh.n - 1); }
+	int destFor(int kind) { int d = destState(); if (kind == K_SCHEDULE && d == 0 && avoid.count("schedule_root")) d = rng.range(1, sh.n - 1); return d; }
 	int headedState() { return headed[rng.below(uint32_t(headed.size()))]; }
 	int regionId() { return sh.st[size_t(regions[rng.below(uint32_t(regions.size()))])].region; }
 
 	int kind(bool allowSchedule) {
 		std::vector<int> w = {30, 12, 14, 8, has(CAP_UTILITY) ? 8 : 0, has(CAP_UTILITY) ? 8 : 0, allowSchedule ? 8 : 0};
 		if (is("C12")) { w[4] = has(CAP_UTILITY) ? 30 : 0; w[5] = has(CAP_UTILITY) ? 40 : 0; }
-		if (avoid.count("no_select_requests")) w[3] = 0;
+		if (avoid.count("select_into_headless_region")) { for (int r : regions) if (sh.st[size_t(r)].headless) w[3] = 0; }
 		return rng.weighted(w);
 	}
 	int64_t payload() { return nextPayload++; }
 
 	Action requestAction() {
-		Action a; a.type = A_REQUEST; a.kind = int8_t(kind(true)); a.a = int16_t(destState());
+		Action a; a.type = A_REQUEST; a.kind = int8_t(kind(true)); a.a = int16_t(destFor(a.kind));
 		if (has(CAP_PAYLOAD) && rng.chance(is("C14") ? 0.7 : 0.3)) { a.withPayload = true; a.payload = payload(); }
 		return a;
 	}
@@ -248,6 +249,7 @@ RunPlan generate(uint64_t seed, const std::string& lens, const std::string& shap
 	if (p.wp.followers > 0) { w[OP_SNAPSHOT] = (caps & CAP_SERIAL) ? 7 : 0; w[OP_DELIVER] = 16; w[OP_PERTURB] = 4; w[OP_PARTITION] = 2; }
 	if ((caps & CAP_SERIAL) && (L || is("C08") || is("C09") || is("C03") || is("C10") || is("C01"))) { w[OP_SNAPSHOT] = std::max(w[OP_SNAPSHOT], 4); w[OP_CRASH] = 2; w[OP_RESTART] = 3; }
 	if (L || is("C10") || is("C11") || is("C03")) { w[OP_FORK] = 2; w[OP_KILL_ORIGINAL] = 2; }
+	if ((caps & CAP_BUILTIN_RNG) && avoid.count("copy_shares_builtin_rng")) { w[OP_FORK] = 0; w[OP_KILL_ORIGINAL] = 0; }
 	if (is("C05")) { w[OP_REACT] = 30; w[OP_QUERY] = 18; w[OP_UPDATE] = 20; }
 	if (is("C06") || is("C07") || is("C19")) { w[OP_PLAN_APPEND] = plans ? 26 : 0; w[OP_SUCCEED] = plans ? 12 : 0; w[OP_FAIL] = plans ? 5 : 0; w[OP_PLAN_REMOVE] = plans ? 6 : 0; w[OP_PLAN_CLEAR] = plans ? 4 : 0; }
 	if (is("C16")) { w[OP_LOGGER] = logc ? 6 : 0; w[OP_UPDATE] = 40; }
@@ -266,7 +268,7 @@ RunPlan generate(uint64_t seed, const std::string& lens, const std::string& shap
 		o.kind = uint8_t(longRun && r.chance(0.85) ? OP_UPDATE : r.weighted(w));
 		switch (o.kind) {
 		case OP_REACT: o.a = int16_t(r.range(0, 1)); break;
-		case OP_REQUEST: o.a = int16_t(g.kind(true)); o.b = int16_t(g.destState()); break;
+		case OP_REQUEST: o.a = int16_t(g.kind(true)); o.b = int16_t(g.destFor(o.a)); break;
 		case OP_IMMEDIATE: o.a = int16_t(g.kind(false)); o.b = int16_t(g.destState()); break;
 		case OP_PERTURB: o.a = int16_t(g.kind(false)); o.b = int16_t(r.range(1, g.sh.n - 1)); o.c = int16_t(r.range(0, 3)); break;
 		case OP_SUCCEED: case OP_FAIL: o.a = int16_t(r.range(1, g.sh.n - 1)); break;
@@ -286,7 +288,7 @@ RunPlan generate(uint64_t seed, const std::string& lens, const std::string& shap
 		if (o.kind == OP_REQUEST && r.chance(0.5)) { Op u; u.kind = OP_UPDATE; g.decorate(u); p.ops.push_back(u); }
 		if (o.kind == OP_CRASH && r.chance(0.9)) { Op u; u.kind = OP_RESTART; u.a = int16_t(r.range(0, 3)); g.decorate(u); p.ops.push_back(u); }
 		if (o.kind == OP_FORK && r.chance(0.5)) { Op u; u.kind = OP_KILL_ORIGINAL; g.decorate(u); p.ops.push_back(u); }
-		if (p.wp.allowOverflow && o.kind == OP_REQUEST && r.chance(0.3)) { const int n = r.range(2, g.sh.compoCount + 3); for (int j = 0; j < n; ++j) { Op b; b.kind = OP_REQUEST; b.a = int16_t(g.kind(true)); b.b = int16_t(g.destState()); g.decorate(b); p.ops.push_back(b); } }
+		if (p.wp.allowOverflow && o.kind == OP_REQUEST && r.chance(0.3)) { const int n = r.range(2, g.sh.compoCount + 3); for (int j = 0; j < n; ++j) { Op b; b.kind = OP_REQUEST; b.a = int16_t(g.kind(true)); b.b = int16_t(g.destFor(b.a)); g.decorate(b); p.ops.push_back(b); } }
 	}
 	return p;
 }
